@@ -194,9 +194,9 @@ PROPS = {
             {"sub": "blocks", "quick": ["--seed", "{seed}", "--set", "modelled", "--cases", 1200, "--steps", 40],
              "thorough": ["--seed", "{seed}", "--set", "modelled", "--cases", 60000, "--steps", 80]},
             {"sub": "blocks", "quick": ["--seed", "{seed}", "--mode", "self", "--set", "every", "--cases", 1400, "--steps", 40,
-                                        "--probes", 1],
+                                        "--probes", 1, "--tight-probes", 75],
              "thorough": ["--seed", "{seed}", "--mode", "self", "--set", "every", "--cases", 70000, "--steps", 80,
-                          "--probes", 1],
+                          "--probes", 1, "--tight-probes", 6000],
              "timeout": 20000},
         ],
         "rule": "every library block (46 catalogue entries incl. all element types used) x random parameters x random input "
@@ -219,8 +219,9 @@ PROPS = {
         "runs": [
             {"sub": "blocks", "quick": ["--seed", "{seed}", "--set", "modelled", "--cases", 800, "--steps", 40, "--tag-heavy", 1],
              "thorough": ["--seed", "{seed}", "--set", "modelled", "--cases", 40000, "--steps", 80, "--tag-heavy", 1]},
-            {"sub": "blocks", "quick": ["--seed", "{seed}", "--mode", "self", "--set", "every", "--cases", 1400, "--steps", 40, "--fit-probes", 1],
-             "thorough": ["--seed", "{seed}", "--mode", "self", "--set", "every", "--cases", 70000, "--steps", 80],
+            {"sub": "blocks", "quick": ["--seed", "{seed}", "--mode", "self", "--set", "every", "--cases", 1400, "--steps", 40, "--fit-probes", 1,
+                                        "--tight-probes", 75],
+             "thorough": ["--seed", "{seed}", "--mode", "self", "--set", "every", "--cases", 70000, "--steps", 80, "--tight-probes", 6000],
              "timeout": 20000},
         ],
         "rule": "as C08; on every real work() call the acceptor checks: consumed/produced within the windows, a "
@@ -376,7 +377,7 @@ PROPS = {
     },
     "C17": {
         "required_theorems": ["c17_create", "c17_overwrite", "c17_append", "c17_bad_targets", "c17_durable_stream_sink",
-                              "c17_durable_packet_sink"],
+                              "c17_durable_packet_sink", "c17_failed_io_consumes_nothing", "c17_unchecked_flush_is_unsafe"],
         "runs": [
             {"sub": "fsink", "quick": ["--seed", "{seed}", "--kills", 40],
              "thorough": ["--seed", "{seed}", "--kills", 1500], "timeout": 20000},
@@ -705,7 +706,10 @@ MANIFEST_TEXT = {
                 "exactly the new data; append keeps and extends and creates if absent; directories/unwritable files are errors; "
                 "and, for every sequence of work() calls with any window sizes and any write-through behaviour of the buffered "
                 "writer, at every kill point the file is a prefix of the serialised stream holding at least everything consumed "
-                "(packet sink: at every work() return). A reordering (consume before flush) or a changed flag re-opens the proof.",
+                "(packet sink: at every work() return); a failing write or flush (full device) makes work() return the error with "
+                "nothing consumed (the translator records whether each I/O result is propagated with `?`). A reordering "
+                "(consume before flush), an ignored I/O result or a changed flag re-opens the proof; /dev/full probes give the "
+                "failing input.",
         "design_ref": "DESIGN.md section 2, C17",
         "note": "PARTIAL: kernel page-cache semantics assumed. The Append-does-not-create defect was repaired by a fix: commit.",
         "technique": "Lean 4 proof over translator-generated open flags and event order + mode/initial-state correspondence + SIGKILL sampling",
